@@ -190,7 +190,7 @@ static void body_faults(Tape &t, Ctx &c) {
 	refinf::Options so;
 	so.max_out = 1 << 20;
 	refinf::Result rs = refinf::inflate(in.data(), in.size(), so);
-	bool grey = fault == dgen::F_LL_INCOMPLETE || fault == dgen::F_CL_INCOMPLETE;
+	bool grey = fault == dgen::F_LL_INCOMPLETE || fault == dgen::F_CL_INCOMPLETE || fault == dgen::F_D_UNASSIGNED;
 	if (rs.st != dgen::fault_status(fault)) throw OracleBug(fmt("fault %s: the reference decoder reports %s instead of %s", dgen::fault_name(fault), refinf::status_name(rs.st), refinf::status_name(dgen::fault_status(fault))));
 	size_t big = s.data.size() + 70000;
 	Run r = run_inflate(in, ISAL_DEFLATE, stateless, mode, pin, pout, vseed, big);
@@ -330,7 +330,7 @@ int main(int argc, char **argv) {
 	refcrc::self_test();
 	std::vector<Sub> subs = {
 		{"mutants_exhaustive", body_mutants, 96, 2, nullptr, "small valid stream x wrapper mode x API x chunking x kernel: EVERY truncation, EVERY single-bit flip and a substitution at every offset; no fault, documented code, no livelock, completion only if the lenient RFC 1951 reference decodes the same bytes (and the trailer matches in verifying modes), and zlib-accepted raw streams must be accepted with equal bytes; non-trivial: some mutant got past the wrapper and produced output"},
-		{"grammar_faults", body_faults, 96, 6, nullptr, "deflate grammar program with exactly one injected fault (LEN/NLEN, BTYPE 3, HLIT/HDIST > 29, over-subscribed code sets, repeat without predecessor / overflow, no end-of-block code, distance symbols 30/31, literal 286/287, distance beyond output; incomplete sets as grey zone) + 24 padding bytes: documented error class"},
+		{"grammar_faults", body_faults, 96, 6, nullptr, "deflate grammar program with exactly one injected fault (LEN/NLEN, BTYPE 3, HLIT/HDIST > 29, over-subscribed code sets, repeat without predecessor / overflow, no end-of-block code, distance symbols 30/31, literal 286/287, distance beyond output, over-subscription confined to the 15-bit level, an unassigned long distance code actually used; incomplete sets as grey zone) + 24 padding bytes: documented error class"},
 		{"wrapper_faults", body_wrapper_faults, 128, 2, nullptr, "one wrapper fault (magic, CM, header CRC16, FCHECK, CRC32/ISIZE, Adler-32): INVALID_WRAPPER / UNSUPPORTED_METHOD / INCORRECT_CHECKSUM"},
 		{"arbitrary", body_random, 128, 6, nullptr, "random byte strings and multiply damaged streams (flip/replace/truncate/insert/delete) with small output limits and all call schedules; non-trivial: produced output or reached symbol decoding"},
 	};
